@@ -152,16 +152,17 @@ def run(ctx):
     edges, cedges, sim, simc = rs[0].traces, rs[1].traces, rs[2].traces, rs[3].traces
     ctx.cov["edges_emitted"] = len(edges) + len(cedges)
     ctx.log("TLC done: %d + %d edges, %d + %d simulated behaviours" % (len(edges), len(cedges), len(sim), len(simc)))
-    every = 25 if quick else 4
+    every = 25 if quick else 6      # on-disk variants: every n-th edge behaviour (offset by the seed)
+    severy = 2 if quick else 2       # ... and every n-th simulated behaviour
     djobs = [
         lambda: R.drive(fast, 5, edges),
         lambda: R.drive(fast, 8, sim),
         lambda: R.drive(slow, 5, sample(edges, every, ctx.seed)),
-        lambda: R.drive(slow, 8, sim),
+        lambda: R.drive(slow, 8, sample(sim, severy, ctx.seed)),
         lambda: R.drive(cfast, 5, cedges),
         lambda: R.drive(cfast, 8, simc),
         lambda: R.drive(cslow, 5, sample(cedges, every, ctx.seed)),
-        lambda: R.drive(cslow, 8, simc),
+        lambda: R.drive(cslow, 8, sample(simc, severy, ctx.seed)),
     ]
     parallel(djobs)
     s = R.sum
